@@ -105,13 +105,15 @@ class Operator(object):
                 t.validate_no_free_variables()
 
             # If the operation is composite, check that its declared type is no
-            # more general than the type we can infer from the definition
+            # more general than the type we can infer from the definition, and
+            # that the definition can be used at the declared type (that is,
+            # the inferred type is a subtype of the declared one)
             if self.body:
                 type_decl = self.type.instance()
                 vars_decl = list(type_decl.variables())
                 type_infer = self.instance().primitive(unify=False).type
 
-                type_decl.unify(type_infer, subtype=True)
+                type_infer.unify(type_decl, subtype=True)
                 type_decl = type_decl.fix()
 
                 # All the variables in the declared type must still be
@@ -295,9 +297,10 @@ class Expr(ABC):
             if expr.operator.body:
                 expr_primitive = Abstraction(expr.operator.body)
                 # The type of the original expression may be less general than
-                # that of the primitive expression, but not more general.
+                # that of the primitive expression, but not more general; and
+                # the primitive expression must be usable in its place.
                 if unify:
-                    expr.type.unify(expr_primitive.type, subtype=True)
+                    expr_primitive.type.unify(expr.type, subtype=True)
                     expr_primitive.type = expr_primitive.type.fix()
                 expr = expr_primitive.primitive(normalize=False)
 
